@@ -92,8 +92,14 @@ class Gen:
 
     def collection(self):
         t, np, dask, da, db = self.tape, self.np, self.dask, self.da, self.db
-        kind = t.draw(7, "ckind")
+        kind = t.draw(15, "ckind") % 8          # kinds 0..6 twice as likely as kind 7
         self.ncoll += 1
+        if kind == 7:
+            # a legacy collection with no output keys over a non-empty graph: computes to []
+            k = t.draw(5, "zk")
+            name = f"verif-zero-bag-{k}"
+            self.desc.append(["zero-partition-bag", k])
+            return db.Bag({(name, 0): [k, k + 1]}, name, 0), []
         if kind == 6:
             n, p, k = 1 + t.draw(7, "bn"), 1 + t.draw(3, "bp"), t.draw(5, "bk")
             seq = [i * 3 + k for i in range(n)]
